@@ -630,6 +630,10 @@ func init() {
 				i.recvEvent(rcs[pick].ch, ok)
 				if !ok {
 					v = zero(rcs[pick].et)
+					// a closed channel is ready forever: a caller that loops on it (the
+					// merger does) would never let the other goroutines run under the
+					// cooperative scheduler
+					i.yield(false)
 				}
 				return tuple{pick, makeReflectValue(rcs[pick].et, v), ok}
 			}
